@@ -5,6 +5,8 @@ import Driver.C09
 import Driver.C19
 import Driver.C02
 import Driver.C18
+import Driver.C08
+import Driver.C06
 
 def main (args : List String) : IO UInt32 := do
   match args with
@@ -15,4 +17,6 @@ def main (args : List String) : IO UInt32 := do
   | ["c19"] => Driver.C19.run; return 0
   | ["c02"] => Driver.C02.run; return 0
   | ["c18"] => Driver.C18.run; return 0
+  | ["c08"] => Driver.C08.run; return 0
+  | ["c06"] => Driver.C06.run; return 0
   | _ => IO.eprintln "usage: bufmodel <property-protocol>"; return 2
